@@ -13,12 +13,9 @@ Lemma secret_refused_at_counter_max s d k s' e fs :
 Proof.
   intros Hk He Hc Hr. split; [unfold secret_is_noop; rewrite Hk; exact He|].
   cbn [run_sop] in Hr. unfold send_frame in Hr.
-  assert (K1 : key (prepare_secret s) = Some k) by exact Hk.
-  assert (E1 : encrypted (prepare_secret s) = true) by (unfold prepare_secret; cbn; rewrite Hk; reflexivity).
-  assert (C1 : enc_ctr (prepare_secret s) = CounterGuard) by exact Hc.
-  assert (B1 : before_secret (prepare_secret s) = false) by (unfold prepare_secret; cbn; exact He).
-  destruct (MaxMessageSize <? lenN (d ++ [x00])).
-  - injection Hr as <- <- <-. repeat split; try discriminate; unfold restore_secret; cbn; auto.
-  - rewrite K1, E1, C1, N.eqb_refl in Hr. injection Hr as <- <- <-.
-    repeat split; try discriminate; unfold restore_secret; cbn; auto.
+  assert (P : prepare_secret s = upd_enc s true true) by (unfold prepare_secret; rewrite Hk, He; reflexivity).
+  rewrite P in Hr. cbn [key encrypted enc_ctr upd_enc] in Hr. rewrite Hk, Hc, N.eqb_refl in Hr.
+  assert (R : restore_secret (upd_enc s true true) = upd_enc (upd_enc s true true) false false) by reflexivity.
+  destruct (MaxMessageSize <? lenN (d ++ [x00])); injection Hr as <- <- <-; rewrite R;
+    cbn [encrypted enc_ctr upd_enc]; repeat split; try discriminate; exact Hc.
 Qed.
